@@ -10,6 +10,7 @@ from hypothesis import strategies as st
 
 from .. import gens, refs
 from ..runner import Sub
+from . import probes
 from .common import L, Checker, arr, tmag
 
 PROPERTY_ID = "C13"
@@ -19,6 +20,7 @@ RULE = ("kinds: hatvee (vectors of length 1/3/6 incl. exact integers: vex(skew v
         "tr2delta/delta2tr round trip, two-argument form, first-order agreement with log, SE3.delta/Delta). "
         "Non-trivial: |t|>10 and rotation about a non-coordinate axis (adjoint), all components non-zero (hatvee), "
         "rotational and translational parts both non-zero (delta).")
+RULE = RULE + probes.RULE_TEXT + (probes.AUG_TEXT if PROPERTY_ID in probes.AUG_PROPS else "")
 ASSUMPTIONS = ["scipy.linalg.expm (6x6) and NumPy linear algebra are trusted; reference adjoint/exponential formulas in pbt/refs.py are cross-checked against mpmath at start-up",
                "tolerance 1e-9 (1e-7 where a twist exponential is involved) relative to max(1,|t|) and to the magnitude of the twist operand"]
 
@@ -71,6 +73,8 @@ def _form(v, form):
 
 
 def check_case(case):
+    if case.get("kind") in ("hist", "aug"):
+        return probes.run(case, PROPERTY_ID)
     return {"hatvee": _hatvee, "adjoint": _adjoint, "delta": _delta}[case["kind"]](case)
 
 
@@ -257,6 +261,8 @@ def _delta(case):
 
 
 def classify(case):
+    if case.get("kind") in ("hist", "aug"):
+        return probes.classify(case)
     k = case["kind"]
     lab = {"kind:" + k: True}
     if k == "hatvee":
@@ -282,4 +288,5 @@ def subchecks(tier):
         Sub("hatvee", strategy=s_hatvee(), n=(800, 20000), shards=(4, 16)),
         Sub("adjoint", strategy=s_adjoint(), n=(500, 12000), shards=(6, 16)),
         Sub("delta", strategy=s_delta(), n=(500, 12000), shards=(4, 16)),
+        *probes.subs(PROPERTY_ID),
     ]
